@@ -466,12 +466,13 @@ def WSys.run (c : Codec α) : List (WAct α) → WSys → List (Option (Poll WRe
 
 /-! ## the concrete payload type used by the driver and the harness -/
 
-/-- `hio::V`: `U(u64)`, `B(Vec<u8>)`, and `X(partial)` whose `Encode` impl writes `partial`
-    to the writer and then fails. -/
+/-- `hio::V`: `U(u64)`, `B(Vec<u8>)`, `X(partial)` whose `Encode` impl writes `partial`
+    to the writer and then fails, and `E` whose `Encode` impl writes nothing (no `Decode` impl accepts the empty payload). -/
 inductive Val where
   | u (n : Nat)
   | b (bs : Bytes)
   | x (part : Bytes)
+  | e                         -- a value whose `Encode` impl writes nothing and succeeds (an empty payload: a frame of four zero bytes)
   deriving DecidableEq, Repr, Inhabited
 
 /-- `impl Decode for V`: `match d.datatype()? { U8|U16|U32|U64 => d.u64(), Bytes => d.bytes(), _ => message }` -/
@@ -491,6 +492,7 @@ def valCodec : Codec Val where
     | .u n => .ok (Enc.u64 n)
     | .b bs => .ok (Enc.bytes bs)
     | .x part => .error part
+    | .e => .ok []
   dec p :=
     match decVal p with
     | .ok v _ => .ok v
